@@ -105,8 +105,9 @@ def run(ctx: Ctx):
     th = threading.Thread(target=mc)
     th.start()
     space = batch.export_by_print("MC_Cmap", "Export_Cmap.cfg", ctx.workdir, workers=4)
-    if quick:
-        space = space[::150]
+    # every 150th (quick) / 8th (thorough) exported file is rendered as text and read by the real reader; the whole space
+    # is model-checked by MC_Cmap (the real reader costs ~2 ms per file through pandas)
+    space = space[::150] if quick else space[::8]
     cases = [{"rows": c["rows"], "filter": sorted(c["filter"])} for c in space]
     cases += [random_rows(rng) for _ in range(1500 if quick else 40000)]
     records = []
